@@ -9,6 +9,7 @@ import (
 	"os"
 	"sort"
 	"strings"
+	"time"
 )
 
 // Op is one generated workload operation (kind + integer and string
@@ -131,6 +132,9 @@ func ReadReplay(path string) (*ReplayFile, error) {
 // ---------------------------------------------------------------------------
 // Shrinking
 
+// ShrinkWall bounds the wall-clock time of one minimisation.
+var ShrinkWall = 40 * time.Second
+
 // Candidate is a (case, schedule) pair to evaluate.
 type Candidate struct {
 	Case    Case
@@ -142,8 +146,10 @@ type Candidate struct {
 // budgeted by maxEvals.
 func Shrink(cand Candidate, eval func(Candidate) (bool, []int32), maxEvals int) (Candidate, int) {
 	evals := 0
+	deadline := time.Now().Add(ShrinkWall)
 	try := func(c Candidate) (bool, []int32) {
-		if evals >= maxEvals {
+		if evals >= maxEvals || time.Now().After(deadline) {
+			evals = maxEvals // budget exhausted: the best candidate so far is reported
 			return false, nil
 		}
 		evals++
